@@ -11,6 +11,8 @@ H.append({"name":"H_sign","tiers":Q,"scale":"b2","bounds":"B=2; one file in {0,1
 H.append({"name":"H_sign","tiers":T,"scale":"b3","bounds":"B=3; three files with sizes in {0,1,B-1,B,B+1,2B+1}","max_seconds":900,"param_sets":[{"n0":a,"n1":b,"n2":c,"slicing":0} for a in (0,2,3,4,7) for b in (0,1,3,7) for c in (0,4)]})
 H.append({"name":"H_sign","tiers":T,"scale":"b4","bounds":"B=4; one file of 3B bytes","max_seconds":1500,"param_sets":[{"n0":12,"slicing":0}]})
 H.append({"name":"H_sign","tiers":T,"scale":"b4","bounds":"B=4; one file 0..3B with short-read slicing","max_seconds":900,"param_sets":[{"n0":a,"slicing":s} for a in range(0,9) for s in (1,2)]})
+H.append({"name":"H_sign","tiers":Q,"scale":"b2","bounds":"signature streams written through the model codecs (both producers), two files",
+  "param_sets":[{"n0":a,"n1":b,"slicing":0,"comp":c} for a in (0,3,5) for b in (0,3) for c in (1,2)]})
 json.dump({"property":"C04","package":"c04","scale":scale,"harnesses":H,
  "stubs":["os -> in-memory file system model","crypto/md5 -> injective model (strong hash = block content + length)","protobuf/wire -> tag-faithful codec model","goroutines (diff/sign/reader per file, validator) under the deterministic run-until-block schedule"],
  "outside":["compressed signature streams (gzip/brotli codecs are not encodable; only NONE)","block size 64 KiB (declared value scaled)","schedules other than the canonical one (C15/C16)"]},open("config.json","w"),indent=1)
